@@ -1,7 +1,7 @@
 //! Building FSTs through every public front end; cache statistics via hook H2.
 use crate::gen::Kv;
 use fst::raw::{self, Builder, Fst, Output};
-use fst::{IntoStreamer, Map, MapBuilder, Set, SetBuilder, Streamer};
+use fst::{Map, MapBuilder, Set, SetBuilder, Streamer};
 
 pub const GEOMS: [(usize, usize); 6] = [(10_000, 2), (0, 0), (1, 1), (1, 3), (7, 2), (64, 2)];
 
